@@ -76,9 +76,30 @@ LitOps == { <<SCall(ECallB("del", <<TV, EStr(Key(97))>>))>>, <<SCall(ECallB("del
             <<SAsg(EDot(TV, Key(120)), ENum(I(7)))>>, <<SAsg(EDot(TV, Key(120)), ENum(I(7))), SCall(ECallB("del", <<TV, EStr(Key(98))>>))>>, <<>> }
 LitTwice == UNION {{LitTwiceLoop(n, op), LitTwiceFunc(n, op)} : n \in {2, 3, 5, 6}, op \in LitOps}
 
+\* equality ignores order and compares values deeply: every pair of maps over the keys a b c built by insertion in
+\* every order (one side by a literal in sorted order or by assignments, the other by assignments in any order,
+\* optionally after deleting and re-inserting its first key), compared directly, nested in arrays and in maps
+Ks3 == {Key(97), Key(98), Key(99)}
+RECURSIVE SeqsOf(_)
+\* all sequences without repetition over the set S
+SeqsOf(S) == {<<>>} \cup UNION {{<<x>> \o t : t \in SeqsOf(S \ {x})} : x \in S}
+ValOf(k, w) == IF w = 0 THEN 1 ELSE IF k = Key(w + 96) THEN 2 ELSE 1      \* w = 0: all values 1; w = 1..3: that key holds 2
+P_ == EVar("p", TM)
+Q_ == EVar("q", TM)
+Build(v, ks, w) == <<SDecl(v.nm, TM)>> \o [i \in DOMAIN ks |-> SAsg(EIdx(v, EStr(ks[i])), ENum(I(ValOf(ks[i], w))))]
+Reinsert(v, ks, w) == IF Len(ks) = 0 THEN <<>> ELSE <<SCall(ECallB("del", <<v, EStr(ks[1])>>)), SAsg(EDot(v, ks[1]), ENum(I(ValOf(ks[1], w))))>>
+EqObs == Pr(<<EBin("==", P_, Q_), EBin("!=", P_, Q_), EBin("==", Q_, P_), EBin("==", EArr(<<P_>>), EArr(<<Q_>>)),
+              EBin("==", EMap(<<Key(120)>>, <<P_>>), EMap(<<Key(120)>>, <<Q_>>)), EBin("!=", EArr(<<Q_, P_>>), EArr(<<P_, Q_>>)), P_, Q_>>)
+SortedSeqs == {<<>>, <<Key(97)>>, <<Key(97), Key(98)>>, <<Key(97), Key(99)>>, <<Key(98), Key(99)>>, <<Key(97), Key(98), Key(99)>>}
+EqProg(ks1, w1, ks2, w2, re) ==
+  Program((IF w1 = 0 /\ Len(ks1) > 0 THEN <<SInfer("p", EMap(ks1, [i \in DOMAIN ks1 |-> ENum(I(1))]))>> ELSE Build(P_, ks1, w1))
+          \o Build(Q_, ks2, w2) \o (IF re THEN Reinsert(Q_, ks2, w2) ELSE <<>>) \o <<EqObs>>, <<>>, <<>>)
+EqProgs == {EqProg(ks1, w1, ks2, w2, re) : ks1 \in SortedSeqs, w1 \in {0, 2}, ks2 \in SeqsOf(Ks3), w2 \in {0, 2, 3}, re \in BOOLEAN}
+
 Exh == UNION {{<<len, h>> : h \in 0..(NOps ^ len - 1)} : len \in 1..ExhLen}
 Smp == {<<c \div 200000000, c % 200000000>> : c \in Sample}
 FamCases == {MkCase("FamMap", "hist", Prog(init, p[1], p[2])) : init \in 1..3, p \in Exh \cup Smp}
             \cup {MkCase("FamMap", "literal-twice", p) : p \in LitTwice}
+            \cup {MkCase("FamMap", "equality", p) : p \in EqProgs}
 FamInit == InitWith(FamCases)
 =============================================================================
